@@ -43,7 +43,7 @@ def sent_is_written(ctx: Ctx, chk) -> None:
     from . import c12
     from .common import OnlyRule
 
-    proxy = OnlyRule(chk, "OUTCOME-1", "SENT-IS-WRITTEN", " - the line written at the node's wake is then not the encoding of the message that was handed to send (a field such as the ack flag falls back to its default)", "the line the transport finally gets for a sent message is the encoding of that message: an outgoing handler writes the encoded line it was given or parks the message itself (or a copy of all its fields), never a re-built message")
+    proxy = OnlyRule(chk, "OUTCOME-1", "SENT-IS-WRITTEN", " - the line written at the node's wake is then not the encoding of the message that was handed to send (a field such as the ack flag falls back to its default)", "the line the transport finally gets for a sent message is the encoding of that message: an outgoing handler writes the encoded line it was given or parks the message itself (or a copy of all its fields), never a re-built message", only_keys="::parks::")
     c12.outcome1(ctx, proxy)
 
 
